@@ -362,7 +362,8 @@ class Consumer(object):
                 return
 
             self._shutdown_d, d = None, self._shutdown_d
-            self.stop()
+            if not self._stopping:  # stop() itself may have cancelled the commit
+                self.stop()
             self._shuttingdown = False  # Shutdown complete
             d.errback(failure)
 
@@ -797,6 +798,9 @@ class Consumer(object):
         )
 
     def _handle_auto_commit_error(self, failure):
+        if self._stopping and failure.check(CancelledError):
+            # Not really an error: stop() cancelled the pending commit
+            return
         if self._start_d is not None and not self._start_d.called:
             self._start_d.errback(failure)
 
